@@ -1,5 +1,5 @@
 CONSTANTS
-  MaxPeers = 2
+  MaxPeers = 1
   MaxPorts = 2
 INIT Init
 NEXT Next
